@@ -48,7 +48,7 @@ def floors(tier):
     return {"errors_checked": 40000, "context_errors_checked": 2000, "errors_through_ref_hop": 500,
             "false_schema_errors": 100, "d3_required_errors": 100, "propertyNames_errors": 100,
             "errors_below_position0": 3000, "applicator_cells": 60, "identical_objects": 40000, "leaves_without_held_ancestors": 2000,
-            "recursive_template_cases": 100}
+            "recursive_template_cases": 100, "errors_rendered": 10000}
 
 
 def same(a, b):
@@ -182,6 +182,9 @@ def json_path(path):
     return out
 
 
+RENDER_EVERY = 3
+
+
 def check_error(ctx, case, W, instance, e, is_context):
     ctx.count("errors_checked")
     if is_context:
@@ -189,6 +192,22 @@ def check_error(ctx, case, W, instance, e, is_context):
     bad = lambda kind, msg: ctx.violation(kind, dict(case, error={
         "message": e.message[:200], "validator": repr(e.validator), "path": list(e.absolute_path),
         "schema_path": list(e.absolute_schema_path), "is_context": is_context}), msg)
+    # (0) looking at an error - printing it, logging it, asking for its json_path - leaves where it points unchanged
+    if ctx.counters.get("errors_checked", 0) % RENDER_EVERY == 0:
+        def where():
+            return (list(e.path), list(e.schema_path), list(e.relative_path), list(e.relative_schema_path),
+                    list(e.absolute_path), list(e.absolute_schema_path), repr(e.validator),
+                    [(list(c.absolute_path), list(c.absolute_schema_path)) for c in (e.context or ())])
+        before = where()
+        try:
+            text = [str(e), repr(e), "%s" % (e,), "{}".format(e), e.json_path if hasattr(e, "json_path") else None, str(e)]
+        except Exception as exc:
+            return bad("rendering-raised", "%s: %s" % (type(exc).__name__, str(exc)[:100]))
+        ctx.count("errors_rendered")
+        if text[0] != text[-1]:
+            return bad("rendering-not-repeatable", "str(error) differs between two calls")
+        if where() != before:
+            return bad("rendering-moved-the-error", "after str()/repr()/format() the error's paths are %r, before %r" % (where()[1:6:4], before[1:6:4]))
     # (5) absolute = parent's absolute + relative
     if e.parent is not None:
         if list(e.absolute_path) != list(e.parent.absolute_path) + list(e.relative_path):
@@ -497,6 +516,8 @@ def run(ctx):
 
 
 def replay(ctx, rec):
+    global RENDER_EVERY
+    RENDER_EVERY = 1
     impl.quiet()
     c = rec["case"]
     check_case(ctx, c["draft"], c["schema"], c.get("store", {}), c.get("handler_docs", {}), c["instance"])
